@@ -55,14 +55,11 @@ example : run pinned ([37, 112, 37].length + 100) [37, 112, 37] {} .emit = run p
 
 /-! ### refinement of the terminfo(5) reference -/
 
-/-- PARTIAL (what is proved of `WellFormed s → ⟦TParm⟧ s p sv = Spec.eval (parse s) p sv`): for every *straight-line*
-program – any sequence of valid tokens other than `%{n}`, printf formats, `%A`/`%O` and the conditional markers – any
-parameters and any static variables, both the pinned and the repaired machine compute exactly what the terminfo(5)
-reference computes (output and static variables).
-Missing, covered only by the differential correspondence and the reference oracle: `%{n}` and printf tokens (need
-the decimal round-trip / C-printf = Go-Sprintf lemmas) and conditionals of nesting depth ≤ 1 for the pinned machine
-resp. all depths for the repaired one (the skip lemma of DESIGN.md A.2).  The full statement is false for the
-pinned machine (`nested_cond_counterexample`). -/
+/-- Straight-line special case, kept because it holds for BOTH variants without any side condition: for every
+sequence of valid tokens other than `%{n}`, printf formats, `%A`/`%O` and the conditional markers, any parameters and
+any static variables, the pinned and the repaired machine compute exactly what the terminfo(5) reference computes.
+(The full statements are `tparm_refines_spec` for the repaired and `tparm_pinned_refines_spec` for the pinned
+machine below; the full statement is false for the pinned machine, `nested_cond_counterexample`.) -/
 theorem tparm_refines_spec_partial (v : Variant) (ts : List Tok)
     (h : ∀ t ∈ ts, simpleTok t = true ∧ t.valid = true) (params : List Value) (sv : Vars) :
     tparmV v (ofToks ts).render params sv = Spec.Terminfo5.tparm (ofToks ts) params sv := by
